@@ -74,6 +74,8 @@ EXPORTED ROUTINES
 
 ------------------------------------------------------------------------- */
 
+#include <errno.h>
+
 #include "hdf_priv.h"
 #include "hfile_priv.h"
 
@@ -259,6 +261,10 @@ HXcreate(int32 file_id, uint16 tag, uint16 ref, const char *extern_file_name, in
        create it */
     file_external = (hdf_file_t)HI_OPEN(fname, DFACC_WRITE);
     if (OPENERR(file_external)) {
+        /* only a file that is not there is created: after any other failure
+           HI_CREATE() would truncate the file this element is to wrap */
+        if (errno != ENOENT)
+            HGOTO_ERROR(DFE_BADOPEN, FAIL);
         file_external = (hdf_file_t)HI_CREATE(fname);
         if (OPENERR(file_external))
             HGOTO_ERROR(DFE_BADOPEN, FAIL);
@@ -404,6 +410,8 @@ HXPsetaccesstype(accrec_t *access_rec)
         case DFACC_SERIAL:
             file_external = (hdf_file_t)HI_OPEN(fname, DFACC_WRITE);
             if (OPENERR(file_external)) {
+                if (errno != ENOENT) /* see HXcreate */
+                    HGOTO_ERROR(DFE_BADOPEN, FAIL);
                 file_external = (hdf_file_t)HI_CREATE(fname);
                 if (OPENERR(file_external))
                     HGOTO_ERROR(DFE_BADOPEN, FAIL);
